@@ -114,13 +114,13 @@ def build():
         },
         "engines": [
             {"name": "simpool", "path": "/verif/simkit/simpool.py", "serves_properties": ["C17", "C18", "C12", "C08"],
-             "kind_free_text": "deterministic in-process model of multiprocessing.Pool (fork) with virtual clock, seeded scheduling, fault injection F1-F10, task-result cache, record/replay of named decisions"},
+             "kind_free_text": "deterministic in-process model of multiprocessing.Pool (fork): virtual clock also behind time.time/monotonic/perf_counter, seeded worker pick / durations / stragglers / stalls / prefetch depth, per-worker RNG state and per-worker view of the library's module-level state (fork semantics), Pool initializers, pools that outlive a call, fault kinds F1-F13 (DESIGN.md 11), sample-checked task-result cache, record/replay of named decisions, fork-isolated jobs and history-fault runs"},
             {"name": "histsim", "path": "/verif/simkit/histsim.py", "serves_properties": ["C05", "C14", "C15"],
              "kind_free_text": "seeded operation histories over several live objects sharing class-level/global/caller-aliased state, refused operations and restarts through the durable form as faults, step-by-step reference models, ddmin"},
         ],
         "checks": checks,
         "not_applicable": na,
-        "notes": "Technique family: deterministic simulation with fault injection. Exit codes of every check: 0 held, 1 VIOLATION with replay, 2 harness error. Known findings: /verif/KNOWN_FINDINGS.jsonl.",
+        "notes": "Technique family: deterministic simulation with fault injection. Exit codes of every check: 0 held (KNOWN-FINDING lines possible), 1 VIOLATION with a replay that reproduced in a fresh interpreter, 2 harness error (never a verdict). Known findings: /verif/KNOWN_FINDINGS.jsonl (12 fixed by fix: commits in /repo, 14 known, all C18 by call site). Sensitivity: selftest/run_mutants.py (25 catalogue mutants, 54 seeded changes from independent sub-agents under /verif/seeded, 12 behaviour-preserving refactorings under /verif/benign that must stay quiet). DESIGN.md sections 11-14 describe the code as built.",
     }
 
 
